@@ -791,6 +791,8 @@ def cations(rng, mol):
 def rule_instances(ctx):
     """(name, molecule) for every rule of the three standardize tables (single / double / metal-organic): molecules the rule's own
     pattern matches, drawn from the live rule tables (pattern records of gen_rules, instantiation shared with C14's generator)."""
+    if getattr(ctx, 'c04_rule_instances', None) is not None:
+        return ctx.c04_rule_instances
     from ..gen import gen_rules
     from . import c14 as _c14
     std = gen_rules.tables()[0]
@@ -819,10 +821,191 @@ def rule_instances(ctx):
                         break
             if not got:
                 missing.append(f'{tname}[{idx}]')
+    # two ligands of the same metal-organic rule on ONE metal atom (the overlap the `any_atoms` exception of `seen` is for)
+    multi = 0
+    for idx, rec in enumerate(std['metal']):
+        ms = [n for n, a in rec['atoms'] if a['kind'] == 'metal']
+        if len(ms) != 1:
+            continue
+        for attempt in range(6):
+            try:
+                z = rng.choice(_c14.MULTI_METALS)
+                insts = [_c14.instantiate(rec, rng, [z], metal_charge=0) for _ in range(2)]
+                if any(i is None for i in insts):
+                    continue
+                atoms, bonds = _c14._merge_on_metal(insts, [ms[0], ms[0]])
+                mol = _c14.build(atoms, bonds)
+                nm = sum(1 for _ in live['metal'][idx][0].get_mapping(mol, automorphism_filter=False))
+            except Exception:
+                continue
+            if nm >= 2:
+                out.append((f'rule:metal[{idx}]x2', mol))
+                multi += 1
+                break
+    # metal already at charge +4: the rule's `+1` trips the documented abort (`charge > 4`: addition taken back, `break`)
+    q4 = 0
+    for idx, rec in enumerate(std['metal']):
+        if not any(a['kind'] == 'metal' for _, a in rec['atoms']):
+            continue
+        for attempt in range(6):
+            try:
+                inst = _c14.instantiate(rec, rng, _c14.METALS_ALL, metal_charge=4)
+                if inst is None:
+                    continue
+                mol = _c14.build(inst[0], inst[1])
+                ok = next(live['metal'][idx][0].get_mapping(mol, automorphism_filter=False), None) is not None
+            except Exception:
+                continue
+            if ok:
+                out.append((f'rule:metal[{idx}]q4', mol))
+                q4 += 1
+                break
     ctx.dist('history/rules-without-instance', len(missing))
+    ctx.dist('history/rule-instances-two-ligands', multi)
+    ctx.dist('history/rule-instances-metal-charge-4', q4)
     if missing:
         ctx.notes.append(f'standardize rules without a generated instance: {missing[:20]}')
+    ctx.c04_rule_instances = out
     return out
+
+
+# ------------------------------------------------------------------------------------------------
+# standardize(): every rule application recorded on the real code (the mappings its lazy matcher yielded, the molecule before and
+# after) and replayed by the Lean model of the loop body + recount (Model/C04Standardize.lean)
+# ------------------------------------------------------------------------------------------------
+
+def rule_registry():
+    """id(pattern) -> (table, index, atom_fix items in dict order, bonds_fix, any_atoms) of the live rule tables"""
+    from chython.algorithms.standardize._groups import single_rules, double_rules
+    from chython.algorithms.standardize._metal_organics import rules as metal_rules
+    reg = {}
+    for tname, tab in (('double', double_rules), ('single', single_rules), ('metal', metal_rules)):
+        for idx, (pattern, atom_fix, bonds_fix, any_atoms, _t) in enumerate(tab):
+            reg[id(pattern)] = (tname, idx, [(n, ch, ir) for n, (ch, ir) in atom_fix.items()], [tuple(b) for b in bonds_fix], list(any_atoms))
+    return reg
+
+
+def recorded_standardize(mol, kw, reg):
+    """run mol.standardize(**kw) in place; returns [(rule info, wire before the rule, mappings yielded, wire after the rule)].
+    The state after a rule is the state at the first mapping of the next matching rule (nothing else writes in between), and the
+    state when standardize() returns for the last one."""
+    from chython.containers import QueryContainer
+    records = []
+    had = 'get_mapping' in QueryContainer.__dict__
+    orig = QueryContainer.get_mapping
+
+    def wrapper(self, other, /, **kwargs):
+        gen = orig(self, other, **kwargs)
+        info = reg.get(id(self))
+        if info is None or other is not mol:
+            return gen
+
+        def it():
+            rec = None
+            for mp in gen:
+                if rec is None:
+                    rec = [info, wire.mol_to_ints(other), []]
+                    records.append(rec)
+                rec[2].append(list(mp.items()))
+                yield mp
+        return it()
+
+    QueryContainer.get_mapping = wrapper
+    try:
+        mol.standardize(**kw)
+    finally:
+        if had:
+            QueryContainer.get_mapping = orig
+        else:
+            del QueryContainer.get_mapping
+    final = wire.mol_to_ints(mol)
+    return [(info, pre, maps, records[i + 1][1] if i + 1 < len(records) else final) for i, (info, pre, maps) in enumerate(records)]
+
+
+def stdrule_request(info, pre, maps):
+    _t, _i, af, bf, ay = info
+    xs = [len(af)]
+    for n, ch, ir in af:
+        xs += [n, ch, -1 if ir is None else int(ir)]
+    xs.append(len(bf))
+    for b in bf:
+        xs += list(b)
+    xs += [len(ay)] + list(ay)
+    xs.append(len(maps))
+    for mp in maps:
+        xs.append(len(mp))
+        for k, v in mp:
+            xs += [k, v]
+    return 'stdrule ' + ' '.join(map(str, xs + pre))
+
+
+def stdrule_sources(ctx):
+    rng = ctx.rng
+    out = list(rule_instances(ctx))
+    for name, m in list(out):
+        if rng.random() < 0.25:
+            try:
+                v, how = renumbered(rng, m)
+                out.append((f'{name}/renum-{how}', v))
+            except Exception:
+                pass
+    for smi in HOP_HANDMADE + STD_HANDMADE:
+        m = molgen.parse(smi)
+        if m is not None:
+            out.append((smi, m))
+    out += molgen.corpus(rng, 40 if ctx.quick else 600)
+    return out
+
+
+STD_HANDMADE = ['CB(C)[N](C)(C)C', 'CB(C)[S](C)C', 'N#[C-][Fe]', 'N#C[Cu]', 'C[P](C)(C)[Pd](Cl)(Cl)[P](C)(C)C', 'C[N](C)(C)[Pt](Cl)Cl',
+                'CN(=O)=O', 'C[N+](=O)[O-]', 'CS(=O)(=O)[O-]', 'C[S+](C)[O-]', 'CC(O)=C', 'OC1=CC=CC=N1', 'C[N+]#[C-]', 'CN=[N+]=[N-]', 'CN=N#N',
+                'CC(=O)O[Na]', 'CC(=O)O[Cu]OC(C)=O', '[H]B1([H])[H]B([H])([H])[H]1', 'CCB(CC)N(C)=C', 'C[Mg]Br', 'CC[Li]', 'O=N(=O)c1ccc(cc1)N(=O)=O',
+                'CN(C)(C)=O', 'CP(C)(C)=C', 'C[N+](C)(C)[O-]', 'OC=CC=O', 'NC(=O)C=C(O)C', 'ClC(Cl)=P(C)(C)C', 'C=[N+]=[N-]', '[O-][N+](=O)C=C[N+]([O-])=O']
+
+
+def stdrule_stream(ctx):
+    reg = rule_registry()
+    reqs, meta = [], []
+    variants = [{}, {}, {'fix_tautomers': False}, {'logging': True}]
+    for name, src in stdrule_sources(ctx):
+        kw = ctx.rng.choice(variants)
+        c = src.copy()
+        c._changed = None
+        c._backup = None
+        try:
+            recs = recorded_standardize(c, kw, reg)
+        except Exception as e:
+            ctx.dist(f'stdrule/standardize-raised:{type(e).__name__}')
+            continue
+        ctx.dist('stdrule/molecules')
+        if not recs:
+            ctx.dist('stdrule/no-rule-matched')
+        for info, pre, maps, post in recs:
+            reqs.append(stdrule_request(info, pre, maps))
+            meta.append((name, src, kw, info, pre, maps, post))
+    resp = core.run_driver('C04', reqs) if reqs else []
+    for (name, src, kw, info, pre, maps, post), line in zip(meta, resp):
+        changed = structure_key(pre) != structure_key(post)
+        ctx.count(('stdrule', info[0], info[1], tuple(pre), json.dumps(maps)), nontrivial=changed)
+        ctx.dist(f'stdrule/rule/{info[0]}' + ('/rewrites' if changed else '/all-mappings-skipped-or-no-op'))
+        if any(o == 8 for *_x, nb in structure_key(pre) for _k, o in nb) != any(o == 8 for *_x, nb in structure_key(post) for _k, o in nb) \
+                or sum(o == 8 for *_x, nb in structure_key(pre) for _k, o in nb) != sum(o == 8 for *_x, nb in structure_key(post) for _k, o in nb):
+            ctx.dist('stdrule/coordinate-bonds-changed')
+        if len(maps) > 1:
+            ctx.dist('stdrule/several-mappings-yielded')
+        ok = line.startswith('ok ') and structure_key([int(x) for x in line[3:].split()]) == structure_key(post)
+        if not ok:
+            ctx.cov['disagreements_checked'] += 1
+            ctx.c04_bad_mols.append({'kind': 'history', 'name': name, 'wire': wire.mol_to_ints(src), 'ops': [['call', 'standardize', kw]]})
+            if sum(1 for x in ctx.broken if x.name.startswith('stdrule/')) < 8:
+                detail = f'{name} {src}: rule {info[0]}[{info[1]}] over {len(maps)} yielded mappings; '
+                if line.startswith('ok '):
+                    mk, rk = structure_key([int(x) for x in line[3:].split()]), structure_key(post)
+                    detail += f'first differing atoms (real, model): {[(a, b) for a, b in zip(rk, mk) if a != b][:3]}'
+                else:
+                    detail += f'model answered {line[:80]}'
+                ctx.broke('correspondence', f'stdrule/{info[0]}[{info[1]}]', detail)
+    ctx.notes.append(f't+{ctx.elapsed():.0f}s standardize rule applications replayed by the model: {len(reqs)}')
 
 
 def history_cases(ctx):
@@ -1154,7 +1337,7 @@ def correspond(ctx):
     ctx.notes.append(f't+{ctx.elapsed():.0f}s build+audit done')
     ctx.c04_bad_ctx = []
     ctx.c04_bad_mols = []
-    ctx.cov['programs'] = 12  # implicify_hydrogens, explicify_hydrogens, check_implicit on stored marks after canonicalize/standardize/kekule/thiele, _compiled_valence_rules, calc_implicit, check_implicit, check_valence, fix_structure, brutto, molecular_charge, is_radical, molecular_mass
+    ctx.cov['programs'] = 13  # Standardize.__standardize loop body + recount (per rule, recorded mappings), implicify_hydrogens, explicify_hydrogens, check_implicit on stored marks after canonicalize/standardize/kekule/thiele, _compiled_valence_rules, calc_implicit, check_implicit, check_valence, fix_structure, brutto, molecular_charge, is_radical, molecular_mass
     if not ctx.build_ok:
         # a table theorem of Props/C04.lean failing does not stop the driver (Model + Gen only) from building
         ok, out, _ = core.lake_build(['drv_c04'])
@@ -1334,6 +1517,8 @@ def correspond(ctx):
     history_stream(ctx)
     # -- stream 8: readers (bracket atoms with stated hydrogens)
     reader_stream(ctx)
+    # -- stream 9: every rule application of standardize() replayed by the model of the loop body + recount
+    stdrule_stream(ctx)
 
 
 # ------------------------------------------------------------------------------------------------
